@@ -1085,8 +1085,9 @@ func RaceWith[T any](sources ...Observable[T]) func(Observable[T]) Observable[T]
 					// store the subscription so that the teardown releases it.
 					subscriptions[j] = sub
 				} else {
-					// Another source won, unsubscribe this one
-					sub.Unsubscribe()
+					// Another source won, unsubscribe this one. A panicking teardown must not abort
+					// the subscribe function: the teardown returned below is what releases the winner.
+					recoverUnhandledError(sub.Unsubscribe)
 				}
 				mu.Unlock()
 			}
